@@ -129,6 +129,21 @@ func (f *frame) headerPhiOverrides(li *loopInfo, pick func(phi *ssa.Phi) (Val, b
 	return ov
 }
 
+// seenOverride binds #seen for a loop whose header consumes a range-over-map iterator.
+func (f *frame) seenOverride(li *loopInfo, st *State, ov map[string]SV) {
+	for b := range li.blocks {
+		for _, instr := range b.Instrs {
+			if nx, ok := instr.(*ssa.Next); ok && !nx.IsString {
+				if rng, ok := nx.Iter.(*ssa.Range); ok {
+					if h := f.c.g.seenHeap(rng); h != "" && nx.Block() == li.header {
+						ov["#seen"] = SV{Term: st.Heap(h), Typ: types.Typ[types.Bool]}
+					}
+				}
+			}
+		}
+	}
+}
+
 func (f *frame) enterLoop(li *loopInfo, in *State) *State {
 	c := f.c
 	b := li.header
@@ -166,6 +181,7 @@ func (f *frame) enterLoop(li *loopInfo, in *State) *State {
 	lp := fmt.Sprintf("%s:loop%d", f.path, li.ordinal)
 	if li.spec != nil {
 		ov := f.headerPhiOverrides(li, func(phi *ssa.Phi) (Val, bool) { v, ok := entryVals[phi]; return v, ok })
+		f.seenOverride(li, in, ov)
 		env := f.specEnv(in, b, ov)
 		for i, inv := range li.spec.Invariants {
 			goal := f.evalClause(inv, env)
@@ -200,6 +216,7 @@ func (f *frame) enterLoop(li *loopInfo, in *State) *State {
 	}
 	if li.spec != nil {
 		ov := f.headerPhiOverrides(li, func(phi *ssa.Phi) (Val, bool) { v, ok := li.hdrVals[phi]; return v, ok })
+		f.seenOverride(li, hs, ov)
 		env := f.specEnv(hs, b, ov)
 		for _, inv := range li.spec.Invariants {
 			c.assume(hs, f.evalClause(inv, env))
@@ -224,6 +241,7 @@ func (f *frame) backEdge(li *loopInfo, from *ssa.BasicBlock, es *State) {
 		}
 	}
 	ov := f.headerPhiOverrides(li, func(phi *ssa.Phi) (Val, bool) { return f.val(phi.Edges[idx]), true })
+	f.seenOverride(li, es, ov)
 	env := f.specEnv(es, from, ov)
 	lp := fmt.Sprintf("%s:loop%d", f.path, li.ordinal)
 	for i, inv := range li.spec.Invariants {
